@@ -191,6 +191,8 @@ def write_scenario(spec: Dict[str, Any], d: Path) -> Path:
     }
     if "search_res" in sim:
         simd["sim_h3_search_resolution"] = sim["search_res"]
+    if "loc_res" in sim:
+        simd["sim_h3_resolution"] = sim["loc_res"]
     disp = {"valid_dispatch_states": ["Idle", "Repositioning"]}
     disp.update(spec.get("dispatcher", {}))
     y = {"sim": simd, "network": network, "input": inputs, "dispatcher": disp}
@@ -529,6 +531,11 @@ def random_spec(seed: int, profile: Optional[Dict[str, Any]] = None) -> Dict[str
             disp["ideal_fastcharge_soc_limit"] = rnd.choice([0.3, 0.6, 0.95])
         if rnd.random() < 0.25:
             sim["search_res"] = rnd.choice([6, 8, 9])
+        # sim_h3_resolution other than 15 is not exercised: vehicles, stations and bases are placed by the road network
+        # (the straight-line network is always built at resolution 15) while requests use the configured resolution, and the
+        # dispatcher's grid distance then raises "cells are too far apart" (observed with 12 and 13; outside the properties)
+    if P.get("loc_res"):
+        sim["loc_res"] = int(P["loc_res"])
     if isinstance(P.get("dispatcher"), dict):
         disp.update(P["dispatcher"])
     spec = {
